@@ -601,6 +601,65 @@ func propC07(c *Ctx) {
 		}
 	})
 
+	c.Rule("C07.R8", func() {
+		o := c.Ob("C07.R8", "FinalizeTokenDeposit: exactly one finalize_token_deposit event per processed deposit, with request provenance and the outcome flag")
+		for _, p := range c.Paths(fn, ftdPO) {
+			o.Paths++
+			if !p.OK() || p.Panic {
+				continue
+			}
+			_, rel, _ := gateOf(p, len(p.Events))
+			if rel != rEQ {
+				continue
+			}
+			idx, views, und := emitted(p)
+			if len(und) > 0 {
+				o.Undecide("event not decodable")
+				continue
+			}
+			var dep []int
+			for k, v := range views {
+				if v.Type == "finalize_token_deposit" {
+					dep = append(dep, k)
+				}
+			}
+			if len(dep) != 1 {
+				o.Fail(c.W.Pos(fn.Pos()), fmt.Sprintf("processed deposit emits %d finalize_token_deposit events", len(dep)), c.Dump(p, -1))
+				continue
+			}
+			o.Sites++
+			v := views[dep[0]]
+			checkEvent(c, o, p, idx[dep[0]], v, map[string]string{
+				"l1_sequence": "strconv.FormatUint(req.Sequence, 10)", "sender": "req.From", "recipient": "req.To",
+				"denom": "req.Amount.Denom", "base_denom": "req.BaseDenom", "amount": "(sdkmath.Int).String(req.Amount.Amount)",
+				"finalize_height": "strconv.FormatUint(req.Height, 10)",
+			})
+			d := outcomeOf(p)
+			want := d.credited && (!d.hookRan || d.hookOK)
+			if sc, ok := v.Attrs["success"]; !ok {
+				o.Fail(c.evPos(&p.Events[idx[dep[0]]]), "event lacks the success attribute", c.Dump(p, -1))
+			} else {
+				k := strip(sc).Key()
+				okFlag := strings.HasPrefix(k, "strconv.FormatBool(")
+				inner := strings.TrimSuffix(strings.TrimPrefix(k, "strconv.FormatBool("), ")")
+				switch {
+				case !okFlag:
+					o.Fail(c.evPos(&p.Events[idx[dep[0]]]), "success attribute is "+trunc(k, 100), c.Dump(p, -1))
+				case inner == "true" && !want, inner == "false" && want:
+					o.Fail(c.evPos(&p.Events[idx[dep[0]]]), "success attribute says "+inner+" but the deposit outcome on this path is "+fmt.Sprint(want), c.Dump(p, -1))
+				case inner != "true" && inner != "false":
+					// a symbolic flag: must be the helper result the path branched on
+					if !(strings.Contains(inner, "safeDepositToken") || strings.Contains(inner, "handleBridgeHook")) {
+						o.Fail(c.evPos(&p.Events[idx[dep[0]]]), "success attribute is "+trunc(inner, 100), c.Dump(p, -1))
+					}
+				}
+			}
+		}
+		if o.Sites == 0 {
+			o.Fail(c.W.Pos(fn.Pos()), "no processed success path", nil)
+		}
+	})
+
 	c.Rule("C07.R5", func() {
 		o := c.Ob("C07.R5", "FinalizeTokenDeposit: every '=' path that reaches a return has advanced the L1 sequence (independent of credit/hook outcome)")
 		seenCredited, seenFailed := false, false
@@ -922,6 +981,17 @@ func propC09(c *Ctx) {
 		}
 		if nOK == 0 {
 			o.Fail(c.W.Pos(fn.Pos()), "no success path", nil)
+		}
+	})
+
+	c.Rule("C09.R5", func() {
+		hs := c.Handlers("opchild")
+		for _, hn := range sortedKeys(hs) {
+			po := PO{Params: hParams, Visits: 2}
+			if hn == "FinalizeTokenDeposit" {
+				po.NoInline = []string{"handleBridgeHook", "safeDepositToken"} // (bool,string) helpers with their own rules (C07)
+			}
+			errorDiscipline(c, "C09.R5", "opchild."+hn, hs[hn], po)
 		}
 	})
 
